@@ -10,6 +10,7 @@
 #include <cstring>
 #include <fstream>
 #include <functional>
+#include <memory>
 #include <map>
 #include <set>
 #include <sstream>
@@ -249,7 +250,9 @@ inline Ctx parse_args(const std::string &prop, int argc, char **argv, double qui
   c.deadline = c.t0 + budget;
   long n = sysconf(_SC_NPROCESSORS_ONLN); c.workers = n > 0 ? (int)std::min<long>(n, 16) : 8;
   if (getenv("HEXMC_WORKERS")) c.workers = atoi(getenv("HEXMC_WORKERS"));
+#ifndef __SANITIZE_ADDRESS__
   { struct rlimit rl; rl.rlim_cur = rl.rlim_max = (rlim_t)24 << 30; setrlimit(RLIMIT_AS, &rl); }  // the parent never needs more
+#endif
   return c;
 }
 
@@ -263,7 +266,10 @@ using Describe = std::function<std::string(uint64_t)>;  // index -> raw JSON des
 struct RunResult { Stats stats; bool complete = true; uint64_t chunksDone = 0, chunksTotal = 0; };
 
 inline void child_limits(size_t asBytes) {
-  struct rlimit rl; rl.rlim_cur = rl.rlim_max = asBytes; setrlimit(RLIMIT_AS, &rl);
+  struct rlimit rl;
+#ifndef __SANITIZE_ADDRESS__
+  rl.rlim_cur = rl.rlim_max = asBytes; setrlimit(RLIMIT_AS, &rl);   // (ASan reserves terabytes of shadow: no address-space limit there)
+#endif
   rl.rlim_cur = rl.rlim_max = 0; setrlimit(RLIMIT_CORE, &rl);
 }
 
